@@ -35,6 +35,9 @@ _AXIS_POSITION = (
     "(?:center|left|right|inner|outer)"  # TODO use VALID_POSITION_NAMES here instead
 )
 _AXIS_NAME_POSITION_PAIR = f"{_AXIS_NAME}:{_AXIS_POSITION}"
+# the name / the position of a pair, extracted as such (names may contain a position word)
+_AXIS_NAME_OF_PAIR = rf"({_AXIS_NAME}):{_AXIS_POSITION}(?!\w)"
+_AXIS_POSITION_OF_PAIR = rf"{_AXIS_NAME}:({_AXIS_POSITION})(?!\w)"
 _AXIS_NAME_POSITION_PAIR_LIST = (
     f"(?:{_AXIS_NAME_POSITION_PAIR}(?:,{_AXIS_NAME_POSITION_PAIR})*)?"
 )
@@ -232,20 +235,19 @@ def _parse_signature_from_string(
 
     in_ax_names = []
     for arg in re.findall(_ARGUMENT, in_txt):
-        # Delete the axis positions so they aren't matched as axis names
-        only_names = re.sub(_AXIS_POSITION, "", arg)
-        in_ax_names.append(tuple(re.findall(_AXIS_NAME, only_names)))
+        in_ax_names.append(tuple(re.findall(_AXIS_NAME_OF_PAIR, arg)))
 
     out_ax_names = []
     for arg in re.findall(_ARGUMENT, out_txt):
-        only_names = re.sub(_AXIS_POSITION, "", arg)
-        out_ax_names.append(tuple(re.findall(_AXIS_NAME, only_names)))
+        out_ax_names.append(tuple(re.findall(_AXIS_NAME_OF_PAIR, arg)))
 
     in_ax_pos = [
-        tuple(re.findall(_AXIS_POSITION, arg)) for arg in re.findall(_ARGUMENT, in_txt)
+        tuple(re.findall(_AXIS_POSITION_OF_PAIR, arg))
+        for arg in re.findall(_ARGUMENT, in_txt)
     ]
     out_ax_pos = [
-        tuple(re.findall(_AXIS_POSITION, arg)) for arg in re.findall(_ARGUMENT, out_txt)
+        tuple(re.findall(_AXIS_POSITION_OF_PAIR, arg))
+        for arg in re.findall(_ARGUMENT, out_txt)
     ]
 
     return in_ax_names, in_ax_pos, out_ax_names, out_ax_pos
@@ -279,12 +281,10 @@ def _parse_signature_from_type_hints(
 
         out_ax_names = []
         for arg in return_annotations:
-            # Delete the axis positions so they aren't matched as axis names
-            only_names = re.sub(_AXIS_POSITION, "", arg)
-            out_ax_names.append(tuple(re.findall(_AXIS_NAME, only_names)))
+            out_ax_names.append(tuple(re.findall(_AXIS_NAME_OF_PAIR, arg)))
 
         out_ax_pos = [
-            tuple(re.findall(_AXIS_POSITION, arg)) for arg in return_annotations
+            tuple(re.findall(_AXIS_POSITION_OF_PAIR, arg)) for arg in return_annotations
         ]
 
     # Now do input args
@@ -296,11 +296,11 @@ def _parse_signature_from_type_hints(
 
     in_ax_names = []
     for arg in arg_annotations:
-        # Delete the axis positions so they aren't matched as axis names
-        only_names = re.sub(_AXIS_POSITION, "", arg)
-        in_ax_names.append(tuple(re.findall(_AXIS_NAME, only_names)))
+        in_ax_names.append(tuple(re.findall(_AXIS_NAME_OF_PAIR, arg)))
 
-    in_ax_pos = [tuple(re.findall(_AXIS_POSITION, arg)) for arg in arg_annotations]
+    in_ax_pos = [
+        tuple(re.findall(_AXIS_POSITION_OF_PAIR, arg)) for arg in arg_annotations
+    ]
 
     # Do a sanity check before going any further
     str_signature = str(
